@@ -416,7 +416,7 @@ class SrcModel:
                     ann = norm(st.annotation)
                     info: Dict[str, object] = {
                         "annotation": ann,
-                        "optional": ann.startswith("Optional[") or "None" in ann,
+                        "optional": ann.startswith(("Optional[", "typing.Optional[")) or (ann.startswith("Union[") and "None" in ann) or ann == "None",
                         "has_default": False,
                         "default": None,
                         "validator_optional": False,
@@ -429,7 +429,7 @@ class SrcModel:
                                 if kw.arg in ("default", "factory"):
                                     info["has_default"] = True
                                     info["default"] = kw.value
-                                if kw.arg == "validator" and "optional(" in norm(kw.value, 1000):
+                                if kw.arg == "validator" and norm(kw.value, 1000).startswith(("attrs.validators.optional(", "attr.validators.optional(", "validators.optional(", "optional(")):
                                     info["validator_optional"] = True
                                 if kw.arg == "converter":
                                     info["converter"] = kw.value
